@@ -58,6 +58,9 @@ var c09Placements = []string{
 	// matching on the empty label list
 	"m{%A} - on () n{%B}",
 	"m{%A} * ignoring () n{%B}",
+	// a third label key, so that the union of both matcher lists has three and more entries
+	"m{c=\"\",%A} - n{%B}",
+	"m{%A} * n{c!=\"1\",%B}",
 	// several matchers on the metric name
 	"{__name__=\"m\",__name__!=\"m\",%A} + m{%B}",
 	"{__name__=\"m\",__name__=~\"m|n\",%A} - m{%B}",
